@@ -12,7 +12,7 @@ ID = "C18"
 LEVEL = "model_checking"
 FUNCTIONS = ["SoCCalculator.calculate", "CapacityCalculator.calculate", "ComponentMetricsData.get", "_internal._math.is_close_to_zero",
              "frequenz.quantities Percentage/Energy constructors (third party, executed as is)",
-             "LatestMetricsFetcher.fetch_next (NaN dropping)", "SendOnUpdate.update_working_batteries (cache eviction)"]
+             "LatestMetricsFetcher.fetch_next (NaN dropping)", "SendOnUpdate.update_working_batteries (cache eviction)", "BatteryPool.soc / BatteryPool.capacity (stream creation)"]
 SHIMS = ["math.isclose dispatch on proxies (exact reals)", "calculators built with __new__ (calculate() reads no instance state)"]
 ASSUMPTIONS = [
     "exact reals; capacity in [0, 1e6], SoC in [-10, 110], 0 <= soc_lower <= soc_upper <= 100",
@@ -174,6 +174,54 @@ def make_pipeline(reach=False):
     return fn
 
 
+def make_wiring(n):
+    """BatteryPool.soc / BatteryPool.capacity as the pool wires them: the real properties are evaluated on a pool whose reference
+    store holds n batteries and a symbolic working subset; the SendOnUpdate class is replaced by a recorder, and the recorded
+    calculator is then run on complete symbolic data with the recorded working set (= what the first emitted value is computed from)."""
+    import types
+    from datetime import timedelta
+    import frequenz.sdk.timeseries.battery_pool._battery_pool as bp
+
+    def fn(ex):
+        data, vs = mk(ex, n, patterns=False)
+        working = {i for i in range(n) if ex.flag(f"working{i}")}
+        made = []
+
+        class Recorder:
+            @staticmethod
+            def name():
+                return "SendOnUpdate"
+
+            def __init__(self, working_batteries, metric_calculator, min_update_interval):
+                self.working = set(working_batteries) & set(metric_calculator.batteries)   # as SendOnUpdate.__init__ does
+                self.calc = metric_calculator
+                made.append(self)
+        real = bp.SendOnUpdate
+        bp.SendOnUpdate = Recorder
+        try:
+            pool = bp.BatteryPool.__new__(bp.BatteryPool)
+            pool._pool_ref_store = types.SimpleNamespace(_batteries=frozenset(range(n)), _working_batteries=set(working), _active_methods={},
+                                                         _min_update_interval=timedelta(seconds=1))
+            soc_stream, cap_stream = pool.soc, pool.capacity
+            again = pool.capacity
+        finally:
+            bp.SendOnUpdate = real
+        ex.check(again is cap_stream and len(made) == 2, "a second access created a second stream")
+        for st, label in ((soc_stream, "soc"), (cap_stream, "capacity")):
+            ex.check(st.calc.batteries == frozenset(range(n)), f"{label}: calculator not created for the pool's batteries")
+            ex.check(st.working == working, f"{label} stream starts with working set {sorted(st.working)}, the pool's working batteries are {sorted(working)}")
+        cap_out = cap_stream.calc.calculate(data, cap_stream.working)
+        tot = sum((E(vs[i][0]) * (E(vs[i][3]) - E(vs[i][2])) / 100 for i in working), z3.RealVal(0))
+        if not working:
+            ex.check(cap_out.value is None, "capacity must be None without working batteries")
+        else:
+            ex.check(cap_out.value is not None and core.zabs(E(cap_out.value.as_watt_hours()) - tot) <= tolz(tot),
+                     "first capacity value != sum of usable capacities of the WORKING batteries")
+        soc_out = soc_stream.calc.calculate(data, soc_stream.working)
+        ex.check((soc_out.value is None) == (not working), "first SoC value None-ness does not follow the working set")
+    return fn
+
+
 def instances(tier):
     I = Instance
     kw = dict(incremental=False, validate_every=25, timeout_ms=30000)
@@ -184,6 +232,7 @@ def instances(tier):
         I("range-3", "make_range", (3,), "3 batteries complete data: range", budget_s=200, **kw),
         I("mono-2", "make_mono", (2,), "2 batteries: monotone in battery 0's SoC", budget_s=200, **kw),
         I("scale-2", "make_scale", (2,), "2 batteries: scale invariance", budget_s=200, **kw),
+        I("wiring-2", "make_wiring", (2,), "BatteryPool.soc/.capacity: streams are created for the pool's batteries with the current working subset (every subset of 2)", budget_s=100, **kw),
         I("pipeline", "make_pipeline", (), "fetcher drops NaN metrics; SendOnUpdate evicts cached metrics of batteries that stop working", budget_s=100, **kw),
     ]
     out += [
